@@ -27,6 +27,7 @@ mod ser_oracle;
 mod ser_ws;
 mod suite_ser;
 mod suite_fws;
+mod scope_dedup_class;
 mod scope_oracle;
 mod suite_scope;
 mod suite_tree;
